@@ -201,6 +201,15 @@ where R: LLLRing, for<'x> &'x R: LLLRingOps<R> {
         while self.data.step < m { 
             self.iterate();
         }
+
+        // pivots of rows that were never used to reduce another row are not normalized yet.
+        for i in 0..m { 
+            let Some(j) = self.data.nz_col_in(i) else { continue };
+            let u = self.data.target[(i, j)].normalizing_unit();
+            if !u.is_one() { 
+                self.data.mul_row(i, &u);
+            }
+        }
     }
 
     fn iterate(&mut self) { 
